@@ -215,7 +215,17 @@ struct Query {
     hop: Option<(u8, bool, u8)>,
     /// plain | flip (operands and pattern reversed) | rev (pattern reversed) | inline | with
     form: &'static str,
+    /// `Some(i)`: the fixed text `RAW[i]`, outside the Lean model (its predicate can raise):
+    /// compared across configurations and processes only
+    raw: Option<usize>,
 }
+
+/// queries whose predicate raises a type error on some rows
+const RAW: [(&str, &str); 3] = [
+    ("MATCH (n:A) WHERE n.x + 1 > 3 RETURN count(n)", "count(n)"),
+    ("MATCH (n:A) WHERE n.x RETURN count(n)", "count(n)"),
+    ("MATCH (n:A) WHERE n.x * 2 >= 2 AND n.h > 0 RETURN n.h", "n.h"),
+];
 
 #[derive(Clone, Debug)]
 struct Case {
@@ -275,7 +285,16 @@ impl Case {
         }
     }
     fn model_queries(&self) -> String {
-        self.queries.iter().map(|q| q.model()).collect::<Vec<_>>().join(";")
+        self.queries.iter().filter(|q| q.raw.is_none()).map(|q| q.model()).collect::<Vec<_>>().join(";")
+    }
+    /// the observation restricted to the modelled queries
+    fn modelled_obs(&self, obs: &str) -> String {
+        obs.split(';').zip(self.queries.iter()).filter(|(_, q)| q.raw.is_none()).map(|(b, _)| b).collect::<Vec<_>>().join(";")
+    }
+    /// the model's reply with `?` at the positions of the unmodelled queries
+    fn full_model(&self, model: &str) -> String {
+        let mut it = model.strip_prefix("ok ").unwrap_or(model).split(';');
+        self.queries.iter().map(|q| if q.raw.is_some() { "?" } else { it.next().unwrap_or("?") }).collect::<Vec<_>>().join(";")
     }
     /// one line, replayable: `case <ix_mid> <cp_mid|-> <partial> <ops> <queries>`
     fn render(&self) -> String {
@@ -304,7 +323,7 @@ impl Case {
             self.cp_mid.map(|c| c.to_string()).unwrap_or("-".into()),
             if self.partial.is_empty() { "-".into() } else { self.partial.iter().map(|(l, k)| format!("{}.{}", l, k)).collect::<Vec<_>>().join(",") },
             if ops.is_empty() { "-".into() } else { ops.join(";") },
-            self.queries.iter().map(|q| format!("{}~{}", q.model(), q.form)).collect::<Vec<_>>().join(";")
+            self.queries.iter().map(|q| match q.raw { Some(i) => format!("raw:{}", i), None => format!("{}~{}", q.model(), q.form) }).collect::<Vec<_>>().join(";")
         )
     }
     fn parse(line: &str) -> Option<Case> {
@@ -350,6 +369,14 @@ impl Case {
         }
         let mut queries = vec![];
         for qs in t[5].split(';') {
+            if let Some(i) = qs.strip_prefix("raw:") {
+                let i: usize = i.parse().ok()?;
+                if i >= RAW.len() {
+                    return None;
+                }
+                queries.push(Query { label: 1, preds: vec![], ret: None, hop: None, form: "plain", raw: Some(i) });
+                continue;
+            }
             let (m, form) = qs.split_once('~')?;
             let form = match form {
                 "plain" => "plain",
@@ -384,7 +411,7 @@ impl Case {
                 let g: Vec<&str> = f[3].split(',').collect();
                 Some((g.first()?.parse().ok()?, *g.get(1)? == "o", g.get(2)?.parse().ok()?))
             };
-            queries.push(Query { label: f[0].parse().ok()?, preds, ret, hop, form });
+            queries.push(Query { label: f[0].parse().ok()?, preds, ret, hop, form, raw: None });
         }
         Some(Case { ops, queries, ix_mid, cp_mid, partial })
     }
@@ -415,6 +442,9 @@ impl Query {
         format!("{}|{}|{}|{}", self.label, preds, ret, hop)
     }
     fn cypher(&self) -> String {
+        if let Some(i) = self.raw {
+            return RAW[i].0.to_string();
+        }
         let sym = |op: &str, flip: bool| -> &'static str {
             match (op, flip) {
                 ("eq", _) => "=",
@@ -472,6 +502,9 @@ impl Query {
         format!("MATCH {}{}{} RETURN {}", pattern, wh, with, ret)
     }
     fn columns(&self) -> Vec<String> {
+        if let Some(i) = self.raw {
+            return vec![RAW[i].1.to_string()];
+        }
         match (self.hop, self.ret) {
             (Some(_), _) => vec!["n.h".into(), "m.h".into()],
             (None, None) => vec!["count(n)".into()],
@@ -480,6 +513,9 @@ impl Query {
     }
     /// structural class for signatures
     fn kind(&self) -> String {
+        if let Some(i) = self.raw {
+            return format!("raising-predicate-{}", i);
+        }
         let p = match self.preds.first() {
             None => "nopred".to_string(),
             Some(Pred::In { .. }) => "in".to_string(),
@@ -893,7 +929,12 @@ fn gen_case(rng: &mut Rng, big: bool) -> Case {
             4 => "rev",
             _ => "plain",
         };
-        queries.push(Query { label, preds, ret, hop, form });
+        queries.push(Query { label, preds, ret, hop, form, raw: None });
+    }
+    if big || rng.chance(1, 10) {
+        for i in 0..RAW.len() {
+            queries.push(Query { label: 1, preds: vec![], ret: None, hop: None, form: "plain", raw: Some(i) });
+        }
     }
     let partial: Vec<(u8, u8)> = ALL_PAIRS.iter().filter(|_| rng.chance(1, 2)).copied().collect();
     Case { ix_mid: rng.usize(ops.len() + 1), cp_mid: cp_at.map(|c| c.min(ops.len())), ops, queries, partial }
@@ -1057,8 +1098,9 @@ fn main() {
 
     // 2. PRNG cases
     if args.replay.is_none() {
-        let mut rng = Rng::new(args.seed);
-        let (n_rand, n_big) = if args.thorough() { (6000, 24) } else { (700, 4) };
+        // `Rng::new(s)` and `Rng::new(s + 1)` are the same stream one step apart; spread the seeds
+        let mut rng = Rng::new(args.seed.wrapping_mul(0xD6E8_FEB8_6659_FD93).rotate_left(23) ^ 0xC02);
+        let (n_rand, n_big) = if args.thorough() { (6000, 24) } else { (560, 4) };
         for _ in 0..n_rand {
             let mut r = rng.fork();
             cases.push(gen_case(&mut r, false));
@@ -1070,7 +1112,7 @@ fn main() {
     }
 
     // 3. shards x 2 processes
-    let n_shards = if cases.len() < 40 { 1 } else { 6 };
+    let n_shards = if cases.len() < 40 { 1 } else if args.thorough() { 8 } else { 6 };
     let me = std::env::current_exe().expect("current exe");
     let mut shard_of: Vec<Vec<usize>> = vec![vec![]; n_shards];
     // big cases are spread over the shards
@@ -1134,7 +1176,7 @@ fn main() {
         line_of.push((lines.len(), distinct.clone()));
         lines.push(format!("run {} {}", mo, mq));
         for o in &distinct {
-            lines.push(format!("spec {} {} {}", mo, mq, o));
+            lines.push(format!("spec {} {} {}", mo, mq, c.modelled_obs(o)));
         }
     }
     let replies = driver::par_batch(&exe, &lines, 12);
@@ -1144,7 +1186,7 @@ fn main() {
     for (k, c) in cases.iter().enumerate() {
         let r = results[k].as_ref().unwrap();
         let (l0, distinct) = &line_of[k];
-        let model = &replies[*l0];
+        let model = &c.full_model(&replies[*l0]);
         let rendered = c.render();
         let nt = nontrivial(c, &r.shapes);
         rep.case(&rendered, nt);
@@ -1190,7 +1232,9 @@ fn main() {
         for (j, _) in distinct.iter().enumerate() {
             let rp = &replies[l0 + 1 + j];
             if rp != "ok" {
-                let qi = rp.strip_prefix("viol ").and_then(|x| x.parse::<usize>().ok()).unwrap_or(usize::MAX);
+                let qm = rp.strip_prefix("viol ").and_then(|x| x.parse::<usize>().ok()).unwrap_or(usize::MAX);
+                // index among the modelled queries -> index among all queries
+                let qi = c.queries.iter().enumerate().filter(|(_, q)| q.raw.is_none()).nth(qm).map(|(i, _)| i).unwrap_or(usize::MAX);
                 bad.push((j, qi));
             }
         }
@@ -1219,7 +1263,31 @@ fn main() {
                 .unwrap_or(0);
             let qkind = c.queries.get(qi).map(|q| q.kind()).unwrap_or("?".into());
             let dim = if dims.is_empty() { "baseline".to_string() } else { dims.join("+") };
-            let sig = format!("{}:{}", dim, qkind);
+            // rows the configuration lacks / has beyond the model's bag
+            let bag = |t: &str| -> Vec<String> { if t == "-" { vec![] } else { t.split('/').map(|x| x.to_string()).collect() } };
+            let got = bag(cfg_obs.split(';').nth(qi).unwrap_or("-"));
+            let want_txt = match model.split(';').nth(qi) {
+                Some("?") | None => base.split(';').nth(qi).unwrap_or("-"),
+                Some(m) => m,
+            };
+            let want = bag(want_txt);
+            let mut rest = want.clone();
+            let mut extra = 0;
+            for g in &got {
+                match rest.iter().position(|w| w == g) {
+                    Some(p) => {
+                        rest.remove(p);
+                    }
+                    None => extra += 1,
+                }
+            }
+            let delta = match (rest.is_empty(), extra == 0) {
+                (true, true) => "same-as-model",
+                (false, true) => "missing",
+                (true, false) => "extra",
+                (false, false) => "missing+extra",
+            };
+            let sig = format!("{}:{}:{}", dim, qkind, delta);
             rep.count(&format!("violation:{}", sig));
             if sig_seen.insert(sig.clone()) || known.is_known(&sig).is_some() {
                 let mut body = format!("{}\n", rendered);
@@ -1238,13 +1306,13 @@ fn main() {
                         c.queries.get(qi).map(|q| q.cypher()).unwrap_or_default(),
                         cfg,
                         cfg_obs.split(';').nth(qi).unwrap_or("?"),
-                        model.strip_prefix("ok ").unwrap_or(model).split(';').nth(qi).unwrap_or("?"),
+                        model.split(';').nth(qi).unwrap_or("?"),
                         base.split(';').nth(qi).unwrap_or("?")
                     ),
                     &body,
                 );
             }
-        } else if *model != format!("ok {}", distinct[0]) {
+        } else if *model != c.full_model(&format!("ok {}", c.modelled_obs(&distinct[0]))) {
             rep.count("model_mismatch");
             if first_break.is_none() {
                 first_break = Some(format!("{}\nimpl  {}\nmodel {}", rendered, distinct[0], model));
